@@ -455,6 +455,8 @@ std::vector<Spec> operandPool() {
   add("dangle", false, { { 101, "X1", T::base, "", "", "", "" }, { 102, "D1", T::term, "X1∪X3", "", "", "" } });
   add("kinds", false, { { 101, "X1", T::base, "", "", "", "" }, { 102, "A1", T::axiom, "X1=X1", "", "", "" }, { 103, "F1", T::function, "[α∈ℬ(X1)] α∪X1", "", "", "" }, { 104, "D1", T::term, "F1[X1]", "", "", "" } });
   add("refs", true, { { 101, "X1", T::base, "", "", "a", "" }, { 102, "X2", T::base, "", "", ref("X1") + " b", "" }, { 103, "D1", T::term, "X1", "", "", ref("X2") + " and " + ref("D1") } });
+  // forward mentions: a term text that mentions a constituent listed later, and a derived constituent listed before the one it uses
+  add("fwd", true, { { 101, "X1", T::base, "", "", "el of " + ref("D1"), "" }, { 103, "D2", T::term, "D1∪X1", "see D1", "", "" }, { 102, "D1", T::term, "X1\\X1", "", "d", "" } });
   add("dup", true, { { 101, "X1", T::base, "", "", "a", "" }, { 102, "D1", T::term, "X1", "", "d", "" }, { 103, "D2", T::term, "X1", "", "d", "" } });
   return p;
 }
